@@ -69,7 +69,9 @@ func (db *Builder) Finish() (*Dawg, error) {
 	if db.done {
 		return nil, errors.New("DawgBuilder has already finished")
 	}
-	replaceOrRegister(db.d, db.register)
+	if len(db.d.links) != 0 {
+		replaceOrRegister(db.d, db.register)
+	}
 	return db.d, nil
 }
 
